@@ -10,6 +10,7 @@ vlib.build_lib("asan")
 vlib.build_driver("drv_data", ["drv_data.c", "acct.c"])
 vlib.build_driver("drv_url", ["drv_url.c", "acct.c"])
 vlib.build_driver("drv_aio", ["drv_aio.c", "dee.c", "acct.c"])
+vlib.build_driver("drv_xq", ["drv_xq.c", "dee.c", "acct.c"])
 vlib.build_driver("drv_proto", ["drv_proto.c", "vtran.c", "dee.c", "acct.c"])
 vlib.build_lib("plain")
 PY
